@@ -7,7 +7,7 @@ root, current key, filter context at any depth, in/contains, =~ with flags, unde
 """
 from __future__ import annotations
 
-from rt import gen, hooks, impl, ref_jsonpath as ref
+from rt import gen, hooks, impl, ref_jsonpath as ref, ref_regex
 from rt.jp_oracle import check_query_case
 from rt.jsonval import canon
 from rt.render import Renderer
@@ -46,7 +46,11 @@ def both_spellings(ctx, ast, doc, extra, cls, n=2):
     import jsonpath
 
     r = ctx.rng
-    model = ref.eval_query(ast, doc, extra=extra)
+    try:
+        model = ref.eval_query(ast, doc, extra=extra)
+    except ref_regex.Unsupported:
+        ctx.count("regex_outside_common_dialect_skipped")
+        return
     t_std = Renderer(r, blanks=r.choice([0.0, 0.25])).top(ast)
     ok = check_query_case(ctx, ast, doc, t_std, cls + ":std", extra=extra, model=model)
     for _ in range(n):
